@@ -2,6 +2,7 @@ package main
 
 import (
 	"math/rand"
+	"sort"
 	"time"
 
 	"github.com/flynn/noise"
@@ -97,6 +98,9 @@ func replay(b *Behaviour, w *trace.Writer, seed int64) {
 	if b.Settle {
 		r.settle()
 	}
+	if b.Probe {
+		r.probe()
+	}
 }
 
 func (r *run) bindModel(model, real int) {
@@ -147,60 +151,13 @@ func (r *run) step(a *Act) bool {
 		ev.Obs = r.observe(s)
 		r.emit(ev)
 	case "deliver":
-		s := r.sess[a.S]
 		real := r.bind[a.M]
 		if real == 0 {
 			r.emit(Event{Ev: "skip", S: a.S, Why: "message does not exist in the real run"})
 			r.valid = false
 			return true
 		}
-		ev := Event{Ev: "deliver", S: a.S, M: real, Exp: Exp{Res: a.Res, Reply: a.Reply != 0, Hs: a.Hs, Ready: a.Ready, Rk: a.Rk, Valid: r.valid}}
-		before, _ := s.s.VerifState()
-		var isApp bool
-		var out []byte
-		var err error
-		p, what := guard(func() { isApp, out, err = s.s.Deliver(nil, r.msgs[real-1].bytes, r.now) })
-		if p {
-			ev.Panic, ev.PanicV = true, what
-			r.emit(ev)
-			return false
-		}
-		after, _ := s.s.VerifState()
-		n := headerN(r.msgs[real-1].bytes)
-		switch {
-		case err != nil:
-			ev.Res = "err"
-		case isApp:
-			ev.Res = "app"
-			ev.Pt = r.ptID(out)
-		case n >= 0 && n <= 3:
-			ev.Res = "hs"
-		default:
-			ev.Res = "drop"
-		}
-		// which transcript messages did the session consume (from its real progress)
-		if s.def.Role == "resp" && before == 0 && after == 1 {
-			s.ihRef = real
-		}
-		if s.def.Role == "init" && before == 0 && after == 2 {
-			s.rhRef = real
-		}
-		if err == nil && !isApp && len(out) > 0 {
-			id, nf := r.addHonest(s, out, 0, false)
-			ev.Reply = id
-			if nf != nil {
-				ev.New = []Flat{*nf}
-				ev.Leak = r.leak(out)
-			}
-			r.bindModel(a.Reply, id)
-		} else if a.Reply != 0 {
-			r.valid = false
-		}
-		ev.Obs = r.observe(s)
-		if ev.Res != a.Res || ev.Obs.Hs != a.Hs {
-			r.valid = false
-		}
-		r.emit(ev)
+		return r.doDeliver(a.S, real, a)
 	case "send":
 		s := r.sess[a.S]
 		ev := Event{Ev: "send", S: a.S, Exp: Exp{Ok: a.Ok, N: a.N, Valid: r.valid}}
@@ -263,6 +220,100 @@ func (r *run) step(a *Act) bool {
 		r.emit(Event{Ev: "skip", Why: "unknown action " + a.A})
 	}
 	return true
+}
+
+// doDeliver hands real message `real` to session sname and logs the real result; a is the model's action
+// (nil for the attack probes of probe(), which carry no prediction).
+func (r *run) doDeliver(sname string, real int, a *Act) bool {
+	s := r.sess[sname]
+	if a == nil {
+		a = &Act{A: "deliver", S: sname}
+	}
+	ev := Event{Ev: "deliver", S: sname, M: real, Exp: Exp{Res: a.Res, Reply: a.Reply != 0, Hs: a.Hs, Ready: a.Ready, Rk: a.Rk, Valid: r.valid}}
+	before, _ := s.s.VerifState()
+	var isApp bool
+	var out []byte
+	var err error
+	p, what := guard(func() { isApp, out, err = s.s.Deliver(nil, r.msgs[real-1].bytes, r.now) })
+	if p {
+		ev.Panic, ev.PanicV = true, what
+		r.emit(ev)
+		return false
+	}
+	after, _ := s.s.VerifState()
+	n := headerN(r.msgs[real-1].bytes)
+	switch {
+	case err != nil:
+		ev.Res = "err"
+	case isApp:
+		ev.Res = "app"
+		ev.Pt = r.ptID(out)
+	case n >= 0 && n <= 3:
+		ev.Res = "hs"
+	default:
+		ev.Res = "drop"
+	}
+	// which transcript messages did the session consume (from its real progress)
+	if s.def.Role == "resp" && before == 0 && after == 1 {
+		s.ihRef = real
+	}
+	if s.def.Role == "init" && before == 0 && after == 2 {
+		s.rhRef = real
+	}
+	if err == nil && !isApp && len(out) > 0 {
+		id, nf := r.addHonest(s, out, 0, false)
+		ev.Reply = id
+		if nf != nil {
+			ev.New = []Flat{*nf}
+			ev.Leak = r.leak(out)
+		}
+		r.bindModel(a.Reply, id)
+	} else if a.Reply != 0 {
+		r.valid = false
+	}
+	ev.Obs = r.observe(s)
+	if ev.Res != a.Res || ev.Obs.Hs != a.Hs {
+		r.valid = false
+	}
+	r.emit(ev)
+	return true
+}
+
+// probe is the attack suffix of a behaviour: for every handshake whose transport keys the attacker holds in the
+// REAL run (it owns one of the ephemerals) it seals a data record in each direction and hands it to every
+// session. Whatever state the behaviour left the sessions in, a record from the attacker may be handed to the
+// application only by a session that authenticated the attacker's own key for that very handshake; the trace
+// spec's monitors (Authentic, AuthBeforeUse, Agreement) judge the real outcome. No model prediction applies.
+func (r *run) probe() {
+	r.valid = false
+	names := make([]string, 0, len(r.sess))
+	for n := range r.sess {
+		names = append(names, n)
+	}
+	sort.Strings(names)
+	nmsgs := len(r.msgs)
+	for id := 1; id <= nmsgs; id++ {
+		if r.msgs[id-1].flat.T != "RH" {
+			continue
+		}
+		c := r.ownedCiphers(id)
+		if c == nil {
+			continue
+		}
+		for _, dir := range []string{"i2r", "r2i"} {
+			pt := 900 + len(r.pts)
+			b := attacker.Data(c, dir == "i2r", 16, r.ptBytes(pt))
+			r.msgs = append(r.msgs, realMsg{bytes: b, flat: Flat{T: "D", By: "M", Eph: "-", Key: "-", Sig: "-", Ref: id, Dir: dir, N: 16, Pt: pt}})
+			mid := len(r.msgs)
+			r.msgs[mid-1].flat.ID = mid
+			r.emit(Event{Ev: "forge", M: mid, New: []Flat{r.msgs[mid-1].flat}})
+			for _, n := range names {
+				if !r.doDeliver(n, mid, nil) {
+					return
+				}
+			}
+		}
+	}
 }
 
 // settle: each side's current handshake message is delivered once more, in sequence (I->R, R->I,
